@@ -1,5 +1,7 @@
 ---------------------------- MODULE MC_SphereLattice ----------------------------
 (* Enumeration of the geodesic lattice (C01-C03): root -> chunk -> vectors.      *)
+(* Parts: "dir" direct problems, "inv" inverse problems (incl. pole ends and the  *)
+(* pairs lat2 = +-lat1), "ell" the walk over the ellipsoids of the exact solver.  *)
 EXTENDS SphereLattice, Sequences, TLC, Json
 
 CONSTANTS Part, Step, NChunks      \* Step: spacing of arcs on the equator / meridians (15 quick, 1 thorough)
@@ -11,31 +13,56 @@ Sig1Flat == {-170, -91, -60, -1, 0, 30, 89, 120, 181, 269, 300}       \* equator
 Sig1Mer == {s \in Sig1Flat : ~AtPole(90, s)}
 Arcs == {a \in -720..720 : a % Step = 0} \cup {-721, -361, -359, -181, -179, -91, -89, -1, 1, 89, 91, 179, 181, 359, 361, 721}
 
+\* every vector is replayed on one sphere radius and, besides GenDirect by arc and by distance, on one of the six line
+\* interfaces (2 Line + position by arc, 3 by distance, 4 DirectLine, 5 ArcDirectLine, 6 GenDirectLine, 7 Line + SetDistance /
+\* SetArc); the assignment is a fixed mixing function of the vector, so that every interface meets every kind of arc
+Mix(inc, node, s, a) == ((a + 721) * 7 + (s + 170) * 5 + (node + 165) + inc) % 12
+RkOf(h) == 1 + (h % 2)
+LiOf(h) == 2 + ((h \div 2) % 6)
+Dir(inc, node, s, a) == LET h == Mix(inc, node, s, a) IN <<"dir", inc, node, s, a, RkOf(h), LiOf(h)>>
+
 VecDir(C) ==
-  \/ \E a \in InChunk(Arcs, C), inc \in {0, 180}, node \in Nodes, s \in Sig1Flat : v' = <<"dir", inc, node, s, a>>
-  \/ \E a \in InChunk(Arcs, C), node \in Nodes, s \in Sig1Mer : v' = <<"dir", 90, node, s, a>>
-  \/ \E k \in InChunk(-8..8, C), inc \in Obliques, node \in {0, 15, -165}, s \in {0, 90, 180, 270} : v' = <<"dir", inc, node, s, 90 * k>>
+  \/ \E a \in InChunk(Arcs, C), inc \in {0, 180}, node \in Nodes, s \in Sig1Flat : v' = Dir(inc, node, s, a)
+  \/ \E a \in InChunk(Arcs, C), node \in Nodes, s \in Sig1Mer : v' = Dir(90, node, s, a)
+  \/ \E k \in InChunk(-8..8, C), inc \in Obliques, node \in {0, 15, -165}, s \in {0, 90, 180, 270} : v' = Dir(inc, node, s, 90 * k)
 
 VecInv(C) ==
   \/ \E s1 \in InChunk(-180..180, C), inc \in {0, 180}, node \in {0, 350}, d \in {a \in -180..180 : a % Step = 0 \/ a \in {-179, -1, 1, 179}} :
-        (s1 % 5 = 0) /\ v' = <<"inv", inc, node, s1, s1 + d>>
+        (s1 % 5 = 0) /\ v' = <<"inv", inc, node, s1, s1 + d, 1 + ((s1 + d + node) % 2)>>
   \/ \E s1 \in InChunk({s \in -89..269 : s % 5 = 0 \/ s \in {-89, 89, 91, 269}}, C), node \in {0, 15, 180},
         d \in {a \in -180..180 : a % Step = 0 \/ a \in {-179, -1, 1, 179}} :
-        ~AtPole(90, s1) /\ ~AtPole(90, s1 + d) /\ v' = <<"inv", 90, node, s1, s1 + d>>
-  \/ \E k \in InChunk(-2..2, C), inc \in Obliques, node \in {0, 15, -165}, s \in {0, 90, 180, 270} : v' = <<"inv", inc, node, s, s + 90 * k>>
+        ~AtPole(90, s1) /\ ~AtPole(90, s1 + d) /\ v' = <<"inv", 90, node, s1, s1 + d, 1 + ((s1 + d + node) % 2)>>
+  \/ \E k \in InChunk(-2..2, C), inc \in Obliques, node \in {0, 15, -165}, s \in {0, 90, 180, 270}, rk \in Radii : v' = <<"inv", inc, node, s, s + 90 * k, rk>>
   \/ \E lat \in InChunk(-89..89, C), pole \in {"N", "S"}, L \in {0, 77, -120, 180}, lon \in {0, 33, 180, -90, 257}, first \in {TRUE, FALSE} :
-        (lat % 5 = 0 \/ lat \in {-89, -1, 1, 89}) /\ v' = <<"pinv", pole, L, lat, lon, first>>
+        (lat % 5 = 0 \/ lat \in {-89, -1, 1, 89}) /\ v' = <<"pinv", pole, L, lat, lon, first, 1 + ((lat + L + lon) % 2)>>
+  \/ \E lon1 \in InChunk({0, 15, -165, 100, 350, -275}, C), lat \in {45, -45}, mirror \in BOOLEAN, dl \in {90, -90}, rk \in Radii :
+        v' = <<"sp", lat, lon1, mirror, dl, rk>>
+
+(* The ellipsoids of the exact solver: third flattening n = j/200, j in -196..196, i.e. b/a = (200 - j)/(200 + j) in        *)
+(* [0.0101, 99] (GeodesicExact.hpp: b/a in [0.01, 100]); on each a direct problem with integer start latitude, azimuth and   *)
+(* arc length, given as an arc (mode 0) or as the corresponding distance (mode 1).  Quick: one problem per ellipsoid.         *)
+EllJ == -196..196
+EllLat == <<10, -35, 60, 0, 80, -72>>
+EllAzi == <<20, 50, 95, 140, -110, -3>>
+EllArc == <<30, 75, 130, 170, -60>>
+VecEll(C) ==
+  \E j \in InChunk({x + 196 : x \in EllJ}, C) :
+     LET jj == j - 196 IN
+     IF Step = 15
+     THEN v' = <<"ell", jj, EllLat[1 + (j % 6)], EllAzi[1 + ((j \div 2) % 6)], EllArc[1 + ((j \div 3) % 5)], j % 2>>
+     ELSE \E la \in 1..6, az \in 1..6, ar \in 1..5, mode \in 0..1 : (la + az + ar + j) % 3 = 0 /\ v' = <<"ell", jj, EllLat[la], EllAzi[az], EllArc[ar], mode>>
 
 Init == v = <<"root">>
 Next ==
   \/ v = <<"root">> /\ \E c \in 0..(NChunks - 1) : v' = <<"chunk", c>>
-  \/ v[1] = "chunk" /\ (IF Part = "dir" THEN VecDir(v[2]) ELSE VecInv(v[2]))
+  \/ v[1] = "chunk" /\ (CASE Part = "dir" -> VecDir(v[2]) [] Part = "inv" -> VecInv(v[2]) [] Part = "ell" -> VecEll(v[2]))
 
 (* ---------------- model invariants: the lattice is self-consistent ---------------- *)
 DirInv ==
   v[1] = "dir" =>
     LET inc == v[2]  s1 == v[4]  a == v[5]  d == Direct(inc, s1, a) IN
     /\ d.ends # {} /\ d.lat2 \in -90..90
+    /\ v[6] \in Radii /\ v[7] \in 2..7
     /\ \A e \in d.ends : e[2] \in -179..180
     \* whole circuits return to the start with the same azimuth; lon2 - lon1 counts them (equator, oblique)
     /\ (a % 360 = 0 /\ inc # 90 => d.lat2 = Lat(inc, s1) /\ \A e \in d.ends : e[2] = Azi(inc, s1) /\ Abs(e[1]) = Abs(a))
@@ -55,14 +82,30 @@ DirInv ==
 InvInv ==
   /\ v[1] = "inv" =>
        LET i == Inverse(v[2], v[4], v[5])  j == Inverse(v[2], v[5], v[4]) IN
-       /\ i.a12 \in 0..180 /\ i.a12 = j.a12
+       /\ i.a12 \in 0..180 /\ i.a12 = j.a12 /\ v[6] \in Radii
        \* exchanging the end points: azimuths swapped and reversed, area negated
        /\ (i.unique => j.azi1 = Norm180(i.azi2 + 180) /\ j.azi2 = Norm180(i.azi1 + 180))
        /\ (i.unique => \A x \in i.S12, y \in j.S12 : x + y = 0)
   /\ v[1] = "pinv" =>
        LET p == PoleInverse(v[2], v[3], v[4], v[5], v[6])  q == PoleInverse(v[2], v[3], v[4], v[5], ~v[6]) IN
-       /\ p.a12 \in 1..179 /\ p.a12 = q.a12
+       /\ p.a12 \in 1..179 /\ p.a12 = q.a12 /\ v[7] \in Radii
        /\ q.azi1 = Norm180(p.azi2 + 180) /\ q.azi2 = Norm180(p.azi1 + 180)
+  /\ v[1] = "sp" =>
+       \* exchanging the end points (lat2 = -lat1 when mirrored, the opposite sense of longitude): azimuths swapped and reversed,
+       \* area negated, arc unchanged; the two azimuths are supplementary on one parallel and equal across the equator
+       LET lat2 == IF v[4] THEN -v[2] ELSE v[2]
+           i == SameParallel(v[2], v[4], v[5])  j == SameParallel(lat2, v[4], -v[5])
+           Rev(z) == <<(z[1] + 180) % 360, z[2]>>
+           Same(x, y) == x[1] % 360 = y[1] % 360 /\ x[2] = y[2]
+       IN /\ i.a12 = j.a12 /\ i.m2 = j.m2 /\ i.M2 = j.M2
+          /\ Same(j.azi1, Rev(i.azi2)) /\ Same(j.azi2, Rev(i.azi1))
+          /\ i.S12[1] + j.S12[1] = 0 /\ i.S12[2] + j.S12[2] = 0
+          /\ (v[4] => i.azi1 = i.azi2) /\ (~v[4] => (i.azi1[1] + i.azi2[1]) % 360 = 180 /\ i.azi1[2] + i.azi2[2] = 0)
+          /\ i.S12 = <<i.azi2[1] - i.azi1[1], i.azi2[2] - i.azi1[2]>>       \* S12 = (alpha2 - alpha1) U
+          /\ (i.M2 * i.M2 + 3 = 4)                                           \* cos^2 + sin^2 = 1 with 2 sin = sqrt(3)
+EllInv ==
+  v[1] = "ell" => /\ 100 * (200 - v[2]) >= 200 + v[2] /\ 200 - v[2] <= 100 * (200 + v[2])     \* b/a in [0.01, 100]
+                  /\ v[3] \in -89..89 /\ v[5] # 0 /\ Abs(v[5]) < 180
 
 LonOf(inc, node, sig) == Norm180(node + LonAt(inc, sig))
 Emit ==
@@ -70,4 +113,6 @@ Emit ==
   /\ (v[1] = "inv" => PrintT(ToJson(v \o <<Lat(v[2], v[4]), LonOf(v[2], v[3], v[4]), Lat(v[2], v[5]), LonOf(v[2], v[3], v[5])>>)))
   /\ (v[1] = "pinv" => LET plat == IF v[2] = "N" THEN 90 ELSE -90 IN
          PrintT(ToJson(v \o (IF v[6] THEN <<plat, v[3], v[4], v[5]>> ELSE <<v[4], v[5], plat, v[3]>>))))
+  /\ (v[1] = "sp" => PrintT(ToJson(v \o <<v[2], v[3], IF v[4] THEN -v[2] ELSE v[2], v[3] + v[5]>>)))
+  /\ (v[1] = "ell" => PrintT(ToJson(v)))
 =============================================================================
